@@ -54,6 +54,7 @@ func ProfileFor(prop string) *Profile {
 	case "C08":
 		p.MinIdx, p.MaxIdx = 0, 3
 		p.MistypedAttrs = true
+		p.NativeUpdaters = true
 		w["put"], w["update"], w["delete"], w["get"] = 3, 3, 2, 0.5
 		w["bad"], w["idxtype"], w["keyupdate"], w["batchbad"], w["batchw"] = 4, 2.5, 0.5, 1, 1
 		w["batchpartial"], w["keyextra"] = 1.5, 0.4
@@ -73,6 +74,8 @@ func ProfileFor(prop string) *Profile {
 		w["updcond"], w["delcond"] = 0.3, 0.3
 	case "C14":
 		p.Retain = true
+		p.NativeUpdaters = true
+		w["native"] = 0.25
 		p.MaxClients = 2
 		p.MinClients = 1
 		p.MaxIdx = 1
@@ -119,6 +122,10 @@ func ProfileFor(prop string) *Profile {
 	switch prop {
 	case "C01", "C02", "C03", "C04", "C19":
 		p.BigTables = true
+	}
+	switch prop {
+	case "C01", "C05", "C08", "C14", "C19":
+		p.Unusual = true
 	}
 	if Tier == "thorough" {
 		// deeper bounds: longer histories, one more table, more keys per table
